@@ -18,6 +18,16 @@ def gen_cases(rng, tier):
     for _ in range(N):
         n = rand_len(rng, tier)
         yield {'op': 'str', 'cls': rng.choice(CLASSES), 'bits': rand_bits(rng, n), 'pos': rng.choice([0, n // 3, n]), 'route': rng.choice(['bin', 'auto', 'slice']), 'lsb0': rng.random() < 0.3}
+    # objects created from a file (by name or handle): repr must evaluate back to the CURRENT value, also after an in-place change
+    for _ in range(40 if tier == 'quick' else 600):
+        n = 8 * rng.choice([1, 2, 3, 16, 40, 125, 126])
+        yield {'op': 'repr_file', 'cls': rng.choice(CLASSES), 'bits': rand_bits(rng, n, 'rand'), 'how': rng.choice(['filename', 'handle', 'handle_raw', 'filename_len']),
+               'edit': rng.choice([None, 'invert', 'append', 'del', 'set', 'reverse']), 'pos': rng.choice([0, 0, 8, n])}
+    # pp with more trailing bits than str() shows in full
+    for _ in range(4 if tier == 'quick' else 40):
+        g = rng.choice([1004, 1200, 2048, 4000])
+        yield {'op': 'pp', 'cls': rng.choice(CLASSES), 'bits': rand_bits(rng, g + rng.choice([1001, 1003, g - 1]), 'rand'), 'fmt': rng.choice(['hex', 'bin']) + f':{g}', 'width': 120,
+               'sep': ' ', 'show_offset': False, 'lsb0': False, 'no_color': True}
     fmts = ['bin', 'hex', 'oct', 'bytes']
     for _ in range(N):
         f1 = rng.choice(fmts); f2 = rng.choice([None, None] + fmts)
@@ -71,6 +81,33 @@ def run_impl(c):
                 out['eval'] = [type(e).__name__, e.bin, getattr(e, 'pos', None)]
             return out
         return attempt(f)
+    if op == 'repr_file':
+        import tempfile, os
+        C = getattr(bitstring, c['cls'])
+        fd, path = tempfile.mkstemp(prefix='verif_repr_')
+        try:
+            with os.fdopen(fd, 'wb') as fh: fh.write(int(c['bits'], 2).to_bytes(len(c['bits']) // 8, 'big'))
+            def f():
+                how = c['how']
+                if how == 'filename': s = C(filename=path)
+                elif how == 'filename_len': s = C(filename=path, length=len(c['bits']))
+                else:
+                    with open(path, 'rb', buffering=(0 if how == 'handle_raw' else -1)) as fh: s = C(fh)
+                if hasattr(s, 'pos'): s.pos = c['pos']
+                e = c['edit']
+                if e and isinstance(s, BitArray):
+                    if e == 'invert': s.invert()
+                    elif e == 'append': s.append('0b101')
+                    elif e == 'del': del s[0:3]
+                    elif e == 'set': s.set(1, 0); s.set(0, 1)
+                    elif e == 'reverse': s.reverse()
+                rp = repr(s)
+                if s.__str__().endswith('...') and 'filename' not in rp: return {'repr': rp, 'skipped': True}
+                ev = eval(rp.split('  #')[0], {'Bits': Bits, 'BitArray': BitArray, 'ConstBitStream': ConstBitStream, 'BitStream': BitStream})
+                return {'repr': rp[:120], 'cls': type(ev).__name__, 'same': ev.bin == s.bin, 'pos': [getattr(ev, 'pos', None), getattr(s, 'pos', None)]}
+            return attempt(f)
+        finally:
+            os.unlink(path)
     if op == 'pp':
         bitstring.options.lsb0 = c['lsb0']; bitstring.options.no_color = c['no_color']
         s = build(c['cls'], c['bits'], 'bin')
@@ -234,6 +271,13 @@ def oracle(c, obs):
         if c['width'] > 0 and o['chars'] > c['width'] and o['bits'] > unit:
             return f"pp({o['fmt']!r}, width={c['width']}, sep={c['sep']!r}, show_offset={c['show_offset']}): first line has {o['chars']} characters for {o['bits']} bits (unit {unit})"
         if c['g'] and o['lines'] > 1 and o['bits'] % c['g']: return f"pp({o['fmt']!r}): {o['bits']} bits on a line splits a group of {c['g']}"
+        return None
+    if op == 'repr_file':
+        if obs[0] != 'ok': return f"repr / eval(repr) of {c['cls']} created from a file ({c['how']}, edit={c['edit']}) raised {obs}"
+        o = obs[1]
+        if o.get('skipped'): return None
+        if o['cls'] != c['cls'] or not o['same'] or o['pos'][0] != o['pos'][1]:
+            return f"eval(repr(s)) is not s for {c['cls']} created from a file ({c['how']}) after {c['edit']}: {o}"
         return None
     if op == 'array_repr':
         if obs[0] != 'ok': return f"Array repr {c} raised {obs}"
